@@ -287,7 +287,7 @@ _HIST_ASSUME = [
     "dot-files, symlinked inputs, docker outputs, overlapping outputs and commands reading undeclared files are outside the generator",
 ]
 
-def _hist(pid, rule, nt, quick=96, thorough=4000, extra_parts=None, floor=0.15):
+def _hist(pid, rule, nt, quick=96, thorough=10000, extra_parts=None, floor=0.15):
     parts = [{"name": "histories", "pkg": pid.lower(), "test": "TestHistories", "binary": True,
               "quick": {"shards": 32, "checks": quick, "cap": 1500, "shrinktime": "90s"},
               "thorough": {"shards": 48, "checks": thorough, "cap": 14400, "shrinktime": "300s"}}]
@@ -322,7 +322,7 @@ PROPS["C05"] = _hist("C05",
                   "quick": {"shards": 12, "checks": 24, "cap": 900}, "thorough": {"shards": 24, "checks": 400, "cap": 7200}}])
 PROPS["C15"] = _hist("C15",
     "lock-step histories: every build of a C01-style history (all edit kinds, taint, aliases, dir and bin outputs) is played twice: load_outputs=all and load_outputs=minimal in separate workspaces and caches. Exit status and executed set must be equal; every output of a target executed under minimal must equal the expectation (so every dependency output it read, also through aliases, was present and current).",
-    "a minimal-mode build executed a target while >=1 of its direct dependencies was a cache hit (outputs had to be loaded on demand)", quick=64, thorough=2500)
+    "a minimal-mode build executed a target while >=1 of its direct dependencies was a cache hit (outputs had to be loaded on demand)", quick=64, thorough=5000)
 
 PROPS["C20"] = {
     "level": "exploration",
